@@ -92,6 +92,7 @@ struct Summary {
     keys: HashSet<u64>,
     nt_keys: HashSet<u64>,
     failures: Vec<Value>,
+    groups: std::collections::HashMap<String, u64>,
     samples: Vec<Value>,
     max_ms: u64,
     restarts: u64,
@@ -240,7 +241,11 @@ fn manager(family: String, work: Arc<Mutex<Receiver<(u64, String)>>>, opts: Arc<
                     }
                 } else {
                     s.failed += 1;
-                    if s.failures.len() < opts.maxfail {
+                    // keep a few examples of every kind of failure rather than the first N failures
+                    let group = format!("{} {}", v["f"]["kind"].as_str().unwrap_or("?"), v["f"]["what"].as_str().unwrap_or(""));
+                    let seen = s.groups.entry(group).or_insert(0);
+                    *seen += 1;
+                    if *seen <= 4 && s.failures.len() < opts.maxfail {
                         let case: Value = serde_json::from_str(&case_line).unwrap_or(Value::Null);
                         s.failures.push(json!({"idx": idx, "family": family, "case": case, "rendered": v["r"], "detail": v["f"], "ms": ms}));
                     }
@@ -305,7 +310,7 @@ fn extract_case(line: &str) -> Option<String> {
 }
 
 pub fn replay_main(family: &str, rest: &[String]) -> i32 {
-    let mut opts = Opts { jobs: 8, timeout_ms: 20_000, summary: None, tlclog: None, maxfail: 50 };
+    let mut opts = Opts { jobs: 8, timeout_ms: 20_000, summary: None, tlclog: None, maxfail: 200 };
     let mut i = 0;
     while i < rest.len() {
         let v = rest.get(i + 1).cloned().unwrap_or_default();
@@ -375,6 +380,7 @@ pub fn replay_main(family: &str, rest: &[String]) -> i32 {
         "distinct": s.keys.len(),
         "distinct_nontrivial": s.nt_keys.len(),
         "failures": s.failures,
+        "failure_groups": s.groups,
         "samples": s.samples,
         "max_case_ms": s.max_ms,
         "worker_restarts": s.restarts,
